@@ -8,6 +8,8 @@ import Proofs.C17.FW
 import Proofs.C17.System
 import Proofs.C17.Live
 import Proofs.C17.Late
+import Model.C17Snap
+import Proofs.C17.Snap
 /-!
 # C17 — property theorems (statements; proofs live in `Proofs/C17*.lean`)
 
@@ -396,5 +398,34 @@ theorem fw_close_blocks_on_unread_failure_witness :
     (w.step .recv).closed = true ∧ (w.step .recv).closeReturned = 1 ∧ (w.step .recv).waitingCalls = 0 ∧
     (w.step .recv).forwarded = [(0, 1)] := by
   decide
+
+/-! ### `Manager.ServicesByState()` hands out values
+
+`SnapSys`: n idle services under one manager, caller actions one after another, each driven to quiescence:
+start / stop a service, KEEP a `ServicesByState()` result, APPEND to / OVERWRITE entries of the kept results.
+(Found missing by a seeded change that made the accessor return slices shared with the manager; tied by
+the `C17.snap` cases.) -/
+
+/-- The manager's bookkeeping (hence `IsHealthy`, `IsStopped`, `ServicesByState`, the latches) and the services
+after ANY action sequence are those after the same sequence with every snapshot action erased — they never
+depend on what a caller does with a result; and every result a caller holds is exactly the manager's
+`byState` of the moment it was taken, whatever the manager did afterwards. -/
+theorem services_by_state_snapshots_are_values (n : Nat) (acts : List SnapAct) :
+    ((SnapSys.init n).run acts).mgr = ((SnapSys.init n).run (acts.filter SnapAct.onService)).mgr ∧
+    ((SnapSys.init n).run acts).svc = ((SnapSys.init n).run (acts.filter SnapAct.onService)).svc ∧
+    ∀ k ∈ ((SnapSys.init n).run acts).kept, ∃ pre suf, acts = pre ++ SnapAct.keep :: suf ∧
+      k.1 = ((SnapSys.init n).run pre).mgr.byState := by
+  obtain ⟨h1, h2⟩ := PfC17.snap_run_filter acts (SnapSys.init n) (SnapSys.init n) rfl rfl
+  refine ⟨h1, h2, fun k hk => ?_⟩
+  rcases PfC17.snap_kept_run acts (SnapSys.init n) k hk with ⟨k0, hk0, _⟩ | h
+  · simp [SnapSys.init] at hk0
+  · exact h
+
+/-- non-vacuity: a result taken while healthy still lists [0, 2, 1] after service 0 (not last in the list) has left. -/
+example :
+    let x := (SnapSys.init 3).run [.start 0, .start 2, .start 1, .keep, .stop 0, .append]
+    x.mgr.byState .running = [2, 1] ∧ (x.kept.map fun k => k.1 .running) = [[0, 2, 1]] ∧
+    x.mgr.byState .terminated = [0] ∧ x.svc = [.terminated, .running, .running] := by
+  decide +kernel
 
 end PC17
